@@ -378,9 +378,22 @@ func (pr *progRender) render() string {
 	var resultDecls, resultReads []string
 	if s.Kind == "flow" {
 		if len(s.Params) > 0 {
+			lo, hi := 0, len(s.Params)
+			if s.ParSplit > 0 && s.ParSplit < len(s.Params) {
+				// two cff.Params directives: the first ParSplit values, then the rest
+				hi = s.ParSplit
+				opts = append(opts, func() string {
+					var ps []string
+					for k := s.ParSplit; k < len(s.Params); k++ {
+						mk, _ := pHelpers(s.Params[k])
+						ps = append(ps, pr.wrapz(fmt.Sprintf("%s(env.Param(%d))", mk, k), mk+"(0)"))
+					}
+					return n.cff + ".Params(" + strings.Join(ps, ", ") + ")"
+				})
+			}
 			opts = append(opts, func() string {
 				var ps []string
-				for k, p := range s.Params {
+				for k, p := range s.Params[lo:hi] {
 					mk, _ := pHelpers(p)
 					e := fmt.Sprintf("%s(env.Param(%d))", mk, k)
 					if k%2 == 1 {
@@ -408,9 +421,21 @@ func (pr *progRender) render() string {
 				resultDecls = append(resultDecls, fmt.Sprintf("%s := %s(env.Sentinel(%d))", rname(k), mk, k))
 				resultReads = append(resultReads, fmt.Sprintf("env.Result(%d, %s(%s))", k, tg, rname(k)))
 			}
+			rlo, rhi := 0, len(s.Results)
+			if s.ResSplit > 0 && s.ResSplit < len(s.Results) {
+				// two cff.Results directives: the first ResSplit targets, then the rest
+				rhi = s.ResSplit
+				opts = append(opts, func() string {
+					var rs []string
+					for k := s.ResSplit; k < len(s.Results); k++ {
+						rs = append(rs, pr.wrap(fmt.Sprintf("&%s", rname(k))))
+					}
+					return n.cff + ".Results(" + strings.Join(rs, ", ") + ")"
+				})
+			}
 			opts = append(opts, func() string {
 				var rs []string
-				for k := range s.Results {
+				for k := rlo; k < rhi; k++ {
 					rs = append(rs, pr.wrap(fmt.Sprintf("&%s", rname(k))))
 				}
 				return n.cff + ".Results(" + strings.Join(rs, ", ") + ")"
